@@ -1,8 +1,3 @@
-import Driver.Util
-/-! Driver stub for C05: not built yet. -/
-namespace Driver.C05
-abbrev State := Unit
-def init : State := ()
-def step (st : State) (_toks : List String) : Option (State × String) := some (st, "bad-op")
-end Driver.C05
-def main : IO Unit := Driver.runLoop Driver.C05.init Driver.C05.step
+import Driver.ClusterOps
+/-! Driver for C05: the cluster op family on the node model. -/
+def main : IO Unit := Driver.runLoop ({} : Driver.ClusterOps.CState) Driver.ClusterOps.step
